@@ -15,6 +15,7 @@ type symwriteCase struct {
 	Imports []sharedSpec `json:"imports"`
 	Locals  []Bytes      `json:"locals"`
 	Forest  []Val        `json:"forest"`
+	Split   int          `json:"split"` // Finish after this many values too (0 = a single batch)
 }
 
 func cmdSymwrite(in *bufio.Scanner, out *bufio.Writer) error {
@@ -39,7 +40,12 @@ func cmdSymwrite(in *bufio.Scanner, out *bufio.Writer) error {
 				w = ion.NewBinaryWriterLST(&buf, ion.NewLocalSymbolTable(imps, strs(c.Locals)))
 			}
 			var first error
-			for _, v := range c.Forest {
+			for k, v := range c.Forest {
+				if k == c.Split && k > 0 {
+					if err := w.Finish(); err != nil && first == nil {
+						first = err
+					}
+				}
 				if err := writeValue(w, v); err != nil && first == nil {
 					first = err
 				}
